@@ -526,7 +526,12 @@ fn emit(sink: &mut Sink, orig: &str, batches: &[Vec<EditSpec>], out: &Outcome, v
         match &out.dump {
             None => sink.fail(id, "well-formed batches made the implementation fail (panic in build or accessors)", ""),
             Some(d) => {
-                let o = oracle(orig, d).or_else(|| shadow_oracle(&out.shadow, d));
+                // the oracle slices the texts by the offsets the implementation reports: offsets that do not describe the
+                // texts must become a reported failure, not a crash of this harness
+                let o = match catch(|| oracle(orig, d).or_else(|| shadow_oracle(&out.shadow, d))) {
+                    Ok(o) => o,
+                    Err(p) => Some(format!("the reported offset map does not describe the texts (evaluating it panicked: {})", p)),
+                };
                 if verbose {
                     println!("oracle    : {:?}", o);
                 }
@@ -545,9 +550,12 @@ fn emit(sink: &mut Sink, orig: &str, batches: &[Vec<EditSpec>], out: &Outcome, v
                     sink.fail(cid, "a character-level accessor (can_bow / cat_at_char) panicked inside the text", "");
                 }
                 Some(c) => {
-                    let cid = sink.case(char_term(orig, d, c), desc(orig, batches), d.cur.chars().count() > 1);
+                    let (ct, o) = match catch(|| (char_term(orig, d, c), char_oracle(orig, d, c))) {
+                        Ok(x) => x,
+                        Err(p) => ("false".to_string(), Some(format!("the character-level tables do not describe the texts (evaluating them panicked: {})", p))),
+                    };
+                    let cid = sink.case(ct, desc(orig, batches), d.cur.chars().count() > 1);
                     sink.tag("char_level_accessors");
-                    let o = char_oracle(orig, d, c);
                     if verbose {
                         println!("can_bow   : {:?}", c.bow);
                         println!("wcl       : {:?}", c.wcl);
